@@ -1,9 +1,39 @@
 import PyamgV.Driver.Util
+import PyamgV.Model.ExtCGGmres
+/-! Driver ops of extension task E43 (properties C06, C07; op names prefixed `ext_cg_`): the complex GMRES family.
+Numbers are binary64 bit patterns written as decimal integers, a complex vector is the interleaved list
+`re_0,im_0,re_1,im_1,…`; matrices: rows separated by `;`.
 
+`ext_cg_cycle <mgs|hh|fg|mgsr> <A> <M> <b> <x0> <k> <cycles>`
+  the iterates one cycle of `k` inner iterations hands to `callback` (`mgsr`: `cycles` restarted cycles of `k`
+  inner iterations of `gmres_mgs`); `fg`: `M` is the (constant) right preconditioner
+  → `<x_1;…;x_m>`, `-` for none, `bad-size`
+`ext_cg_full <mgs|hh|fg> <A> <M> <b> <x0> <tol> <restart|_> <maxiter|_>`
+  the complete run of `gmres_mgs` / `gmres_householder` / `fgmres` on complex data (`Model/ExtCGGmres.lean`)
+  → `<status> <niter> <residuals> <x> <callback_1;…;callback_m>`, `short` for the `n == 1` shortcut / rejected input -/
 namespace PyamgV.Drv.ExtE43
+open PyamgV PyamgV.Drv PyamgV.ExtCG
 
-/-- line-protocol ops of extension E43 (filled in by the extension) -/
+def fmat (t : String) : List (List Float) :=
+  if t = "-" then [] else (t.splitOn ";").map (fun r => (parseFloats r).toList)
+
+def optNat (t : String) : Option Nat := if t = "_" then none else t.toNat?
+
+def bitsOf (v : List Float) : String := sh (v.map fun f => toString f.toBits.toNat)
+
+def showIts : Option (List (List Float)) → String
+  | none => "bad-size"
+  | some xs => if xs.isEmpty then "-" else String.intercalate ";" (xs.map bitsOf)
+
 def handle : List String → Option String
+  | ["ext_cg_cycle", kind, a, m, b, x0, k, c] =>
+    some (showIts (cgmresCycleFloat kind (fmat a) (fmat m) (parseFloats b).toList (parseFloats x0).toList (nat k) (nat c)))
+  | ["ext_cg_full", kind, a, m, b, x0, tol, r, mi] =>
+    match cgmresFullFloat kind (fmat a) (fmat m) (parseFloats b).toList (parseFloats x0).toList
+        ((parseFloats tol).getD 0 0) (optNat r) (optNat mi) with
+    | none => some "short"
+    | some (st, ni, hist, x, log) =>
+      some s!"{st} {ni} {bitsOf hist} {bitsOf x} {if log.isEmpty then "-" else String.intercalate ";" (log.map bitsOf)}"
   | _ => none
 
 end PyamgV.Drv.ExtE43
